@@ -144,9 +144,10 @@ func TestWorker(t *testing.T) {
 			Real, Stubs, Assume       []string
 			QuickSecs, ThoroughSecs   int
 			RunsPerJob                int
+			HangSecs                  int
 		}
 		d := desc{ID: pr.ID, Level: pr.Level, Rule: pr.Rule, NodesQuick: pr.Nodes("quick"), NodesThorough: pr.Nodes("thorough"), Cross: pr.Cross,
-			Real: pr.Real, Stubs: pr.Stubs, Assume: pr.Assume, QuickSecs: pr.QuickSecs, ThoroughSecs: pr.ThoroughSecs, RunsPerJob: pr.RunsPerJob}
+			Real: pr.Real, Stubs: pr.Stubs, Assume: pr.Assume, QuickSecs: pr.QuickSecs, ThoroughSecs: pr.ThoroughSecs, RunsPerJob: pr.RunsPerJob, HangSecs: pr.HangSecs}
 		b, _ := json.Marshal(&d)
 		os.WriteFile(os.Getenv("VERIF_OUT"), b, 0o644)
 	case "explore":
